@@ -30,6 +30,12 @@ type Topo struct {
 	ws     []*twatch
 	Writes int
 	Eff    *Effects
+	// Calls counts the calls issued by reconcile tasks (at execution); Faults maps such an ordinal to "unavail" (the call
+	// fails Unavailable without effect) or "acklost" (a write takes effect, its caller sees Unavailable). Calls of
+	// northbound handlers and of watcher goroutines are not counted and never fail: a request refused before it is logged
+	// and an event a watcher drops are outside every claimed statement.
+	Calls  int
+	Faults map[int]string
 	// OnWrite is called after each durable change with the event.
 	OnWrite func(ev topoapi.Event, task string)
 }
@@ -60,6 +66,22 @@ func (t *Topo) emit(e topoapi.Event) {
 		t.OnWrite(e, t.k.Active)
 	}
 }
+
+// fault is called inside a parked topo call, on the scheduler goroutine: it returns the fault that hits this call, if any.
+func (t *Topo) fault() string {
+	if !strings.HasPrefix(t.k.Active, "rec/") {
+		return ""
+	}
+	t.Calls++
+	f := t.Faults[t.Calls]
+	if f != "" {
+		delete(t.Faults, t.Calls)
+		t.k.Stat("fault/topo-" + f)
+	}
+	return f
+}
+
+var errTopoInjected = errors.NewUnavailable("topo: injected unavailable")
 
 // AddTarget pre-creates a configurable target entity (setup, not a scheduled effect).
 func (t *Topo) AddTarget(id, typ, ver string, persistent bool) {
@@ -148,6 +170,14 @@ var errGone = errors.NewUnavailable("topo: connection closed")
 func (c *TopoClient) Create(ctx context.Context, o *topoapi.Object) (err error) {
 	t := c.t
 	if !t.k.Park("topo/create/"+t.cname(o.ID), func() {
+		f := t.fault()
+		if f == "unavail" {
+			err = errTopoInjected
+			return
+		}
+		if f == "acklost" {
+			defer func() { err = errTopoInjected }()
+		}
 		if _, ok := t.Objs[o.ID]; ok {
 			err = errors.NewAlreadyExists("object %s exists", o.ID)
 			return
@@ -167,6 +197,14 @@ func (c *TopoClient) Create(ctx context.Context, o *topoapi.Object) (err error) 
 func (c *TopoClient) Update(ctx context.Context, o *topoapi.Object) (err error) {
 	t := c.t
 	if !t.k.Park("topo/update/"+t.cname(o.ID), func() {
+		f := t.fault()
+		if f == "unavail" {
+			err = errTopoInjected
+			return
+		}
+		if f == "acklost" {
+			defer func() { err = errTopoInjected }()
+		}
 		x, ok := t.Objs[o.ID]
 		if !ok {
 			err = errors.NewNotFound("object %s not found", o.ID)
@@ -191,6 +229,10 @@ func (c *TopoClient) Update(ctx context.Context, o *topoapi.Object) (err error) 
 func (c *TopoClient) Get(ctx context.Context, id topoapi.ID) (o *topoapi.Object, err error) {
 	t := c.t
 	if !t.k.Park("topo/get/"+t.cname(id), func() {
+		if t.fault() != "" {
+			err = errTopoInjected
+			return
+		}
 		x, ok := t.Objs[id]
 		if !ok {
 			err = errors.NewNotFound("object %s not found", id)
@@ -236,6 +278,10 @@ func matchFilters(o *topoapi.Object, f *topoapi.Filters) bool {
 func (c *TopoClient) List(ctx context.Context, f *topoapi.Filters) (out []topoapi.Object, err error) {
 	t := c.t
 	if !t.k.Park("topo/list", func() {
+		if t.fault() != "" {
+			err = errTopoInjected
+			return
+		}
 		ids := make([]string, 0, len(t.Objs))
 		for id := range t.Objs {
 			ids = append(ids, string(id))
@@ -256,6 +302,14 @@ func (c *TopoClient) List(ctx context.Context, f *topoapi.Filters) (out []topoap
 func (c *TopoClient) Delete(ctx context.Context, o *topoapi.Object) (err error) {
 	t := c.t
 	if !t.k.Park("topo/delete/"+t.cname(o.ID), func() {
+		f := t.fault()
+		if f == "unavail" {
+			err = errTopoInjected
+			return
+		}
+		if f == "acklost" {
+			defer func() { err = errTopoInjected }()
+		}
 		x, ok := t.Objs[o.ID]
 		if !ok {
 			err = errors.NewNotFound("object %s not found", o.ID)
